@@ -656,6 +656,30 @@ func faultTrees() []faultTree {
 		ft.usedBy["ui/badge.tw"] = "a.tw"
 		out = append(out, ft)
 	}
+	// names that end in the extension themselves (the files carry it twice), next to files whose names are those names
+	{
+		ft := faultTree{files: map[string]string{}, spans: map[string][]model.Span{}, role: map[string]string{}, usedBy: map[string]string{}}
+		put := func(name, role string, stmts []model.Stmt) {
+			marked := model.PrintStmts(stmts, model.Style{Layout: model.SpaceLayout, Marks: true})
+			src, spans := model.StripMarks(marked)
+			ft.files[name] = src
+			ft.spans[name] = spans
+			ft.role[name] = role
+		}
+		put("base.tw.tw", "layout", lay1)
+		put("parts/card.tw.tw", "component", []model.Stmt{model.Text{S: "<card>"}, model.Print{E: model.Var{Name: "t"}}, model.Text{S: "</card>"}})
+		put("index.tw", "page", []model.Stmt{model.Use{Name: "base.tw"}, model.Insert{Name: "title", E: model.StrLit{S: "I"}}, model.Insert{Name: "body", Block: []model.Stmt{model.Text{S: "<main>"},
+			model.Component{Name: "parts/card.tw", Args: &model.ObjLit{Keys: []string{"t"}, Vals: []model.Expr{model.StrLit{S: "hello"}}}}, model.Text{S: "</main>"}}}})
+		// (the near misses: a second layout with the same reserves, a second component with the same argument)
+		put("base.tw", "layout", append([]model.Stmt{model.Text{S: "near miss "}}, lay1...))
+		put("parts/card.tw", "component", []model.Stmt{model.Text{S: "<near>"}, model.Print{E: model.Var{Name: "t"}}, model.Text{S: "</near>"}})
+		put("zz.tw", "page", []model.Stmt{model.Use{Name: "base"}, model.Insert{Name: "body", Block: []model.Stmt{model.Component{Name: "parts/card", Args: &model.ObjLit{Keys: []string{"t"}, Vals: []model.Expr{model.StrLit{S: "z"}}}}}}})
+		ft.usedBy["base.tw.tw"] = "index.tw"
+		ft.usedBy["parts/card.tw.tw"] = "index.tw"
+		ft.usedBy["base.tw"] = "zz.tw"
+		ft.usedBy["parts/card.tw"] = "zz.tw"
+		out = append(out, ft)
+	}
 	return out
 }
 
